@@ -164,7 +164,7 @@ def evaluate(ctx, prop, exe, fix, names, shutdown_only, label):
 
 
 def design_step(ctx, prop):
-    """TLC on the writer + crash + rebuild model (RockWriter.tla): today's design holds C16/C17 up to the named findings, the
+    """TLC on the writer + crash + rebuild model (RockWriter.tla): the design as the tree is now (rebuild with the anchored + size checks) holds C16/C17 up to the named findings, the
     repaired design holds them strictly; and the strict invariant IS violated on today's design (the finding exists at design level)."""
     mod = os.path.join(SPEC, 'MC_RockWriter.tla')
     if os.environ.get('VERIF_C57_SKIP_MC'):        # mutant runs: the design step does not depend on the tree
